@@ -98,3 +98,29 @@ func TestDecorateNeverPanics(t *testing.T) {
 		Decorate(r, []byte("//"), false)
 	}
 }
+
+func TestStructuredFamilies(t *testing.T) {
+	g := NewGen(LoadCorpus(RepoDir()))
+	r := rand.New(rand.NewSource(4))
+	for i := 0; i < 3000; i++ {
+		for _, in := range []Input{g.TemplateSyntax(r), g.Deep(r, 500), g.Amp(r)} {
+			if len(in.Files) == 0 || in.Fam == "" || in.Size() == 0 {
+				t.Fatalf("bad input %+v", in)
+			}
+			if in.Kind == "template" {
+				if _, ok := in.File(in.Main); !ok {
+					t.Fatalf("main file missing: %s", in.Describe(200))
+				}
+			}
+		}
+	}
+	for k := 0; k < NestKinds(); k++ {
+		in := DeepOf(k, 300)
+		if d := NestingDepth(in.Files[0].Data); d < 290 {
+			t.Errorf("%s: NestingDepth = %d for depth 300", in.Fam, d)
+		}
+	}
+	if d := NestingDepth([]byte("package main\n\nfunc main() {\n\tx := f(a[1], b) + 2\n}\n")); d > 6 {
+		t.Errorf("NestingDepth of ordinary code = %d", d)
+	}
+}
